@@ -49,23 +49,30 @@ def search_jobs(tier, families=None, with_at=False, budget_scale=1.0):
 
 
 def run_search_family(prop, tier, props_arg, level="model_checking", families=None, with_at=False,
-                      budget_scale=1.0, subcmd="search", extra_args=None, rule=None, assumptions=None):
+                      budget_scale=1.0, subcmd="search", extra_args=None, rule=None, assumptions=None,
+                      module="MC_Search", extra_jobs=None):
+    """Generic plan: TLC generator jobs (one per family shard) -> harness replay -> classification.
+    extra_jobs: additional (module, constants, subcmd) generator jobs."""
     t0 = time.time()
     vh = vlib.build_harness()
     work = tempfile.mkdtemp(prefix=f"v{prop}_")
     try:
-        jobs = search_jobs(tier, families, with_at, budget_scale)
+        jobs = [(fam, c, module, subcmd) for fam, c in search_jobs(tier, families, with_at, budget_scale)]
+        if module != "MC_Search":
+            for _, c, _, _ in jobs:
+                c.pop("WithAt", None)
+        jobs += extra_jobs or []
         results = []
 
-        def mk(fam, consts, i):
+        def mk(fam, consts, i, mod, sub):
             def run():
                 out = os.path.join(work, f"tlc_{i}.out")
-                r = vlib.run_tlc("MC_Search", consts, SEARCH_CFG, out, workers=4, timeout=3000)
+                r = vlib.run_tlc(mod, consts, SEARCH_CFG, out, workers=4, timeout=3000)
                 if r.error or r.violation:
                     return (fam, consts, r, None, None)
                 rp = os.path.join(work, f"rep_{i}.json")
                 fp = os.path.join(work, f"fail_{i}.ndjson")
-                cmd = [vh, subcmd, "-in", out, "-props", props_arg, "-report", rp, "-fail", fp] + (extra_args or [])
+                cmd = [vh, sub, "-in", out, "-props", props_arg, "-report", rp, "-fail", fp] + (extra_args or [])
                 p = subprocess.run(cmd, capture_output=True, text=True, timeout=3000)
                 os.remove(out)
                 if p.returncode != 0:
@@ -74,7 +81,7 @@ def run_search_family(prop, tier, props_arg, level="model_checking", families=No
                 return (fam, consts, r, rp, fp)
             return run
 
-        fns = [mk(fam, consts, i) for i, (fam, consts) in enumerate(jobs)]
+        fns = [mk(fam, consts, i, mod, sub) for i, (fam, consts, mod, sub) in enumerate(jobs)]
         results = vlib.run_parallel(fns, 4)
         machinery = []
         states = trans = 0
@@ -115,7 +122,7 @@ def run_search_family(prop, tier, props_arg, level="model_checking", families=No
             "spec_gap_samples": gaps[:10], "patterns_by_strategy": agg["by_strategy"], "failing_calls_by_strategy": agg["fail_by_strategy"],
             "patterns_by_family": fams, "failing_calls_total": total, "tlc_wall_s": round(tlc_wall, 1),
             "exhaustive": not machinery,
-            "tlc_jobs": [{"family": f, **c} for f, c in jobs],
+            "tlc_jobs": [{"family": f, "module": m, **c} for f, c, m, _ in jobs],
         }
         return vlib.finish(prop, tier, level, coverage, known_hit, violations, t0, kf,
                            assumptions=assumptions or [
@@ -123,6 +130,12 @@ def run_search_family(prop, tier, props_arg, level="model_checking", families=No
                                "TLC evaluates the TLA+ reference semantics correctly",
                            ], machinery=machinery)
     finally:
+        keep = os.environ.get("VERIF_KEEP")
+        if keep:
+            os.makedirs(keep, exist_ok=True)
+            for f in os.listdir(work):
+                if f.startswith("fail_"):
+                    shutil.copy(os.path.join(work, f), os.path.join(keep, f"{prop}_{f}"))
         shutil.rmtree(work, ignore_errors=True)
 
 
@@ -130,7 +143,20 @@ def c_search(prop, tier):
     return run_search_family(prop, tier, prop)
 
 
+def c08(prop, tier):
+    q = tier == "quick"
+    exp = ("EXPAND", {"MaxLen": 4 if q else 5, "Shard": vlib.seed() % (4 if q else 2), "NShards": 4 if q else 2},
+           "MC_Expand", "expand")
+    return run_search_family(prop, tier, prop, module="MC_Replace", subcmd="replace", extra_jobs=[exp],
+                             families=["CAP", "G2a", "G2x", "LIT", "CC", "U8", "G2m"], budget_scale=0.5,
+                             rule="TLC enumerates pattern-family shards x haystacks and evaluates regexp.replaceAll/expand/Split of the "
+                                  "reference for rotating templates, plus every template of bounded length over the token alphabet "
+                                  "{$ { } 0 1 2 n _ x} against 4 capture environments; non-trivial = output differs from input (replace) "
+                                  "or from the template (expand)")
+
+
 REGISTRY = {
+    "C08": c08,
     "C01": c_search, "C02": c_search, "C03": c_search, "C04": c_search, "C10": c_search, "C11": c_search,
 }
 
